@@ -39,7 +39,8 @@ type instance struct {
 	ensure func(name string, viaTrait bool) // parent: AddChild / AddChildTrait
 	// Update* of one item under op.ID. op.Alt: the written message does not carry the id; op.MsgID: it carries THIS id
 	// (both only where the id is a separate argument: publication); op.Upsert: resource.WithCreateIfAbsent();
-	// op.Mask: "" = no update mask, "key" = a mask naming the key field and others, "nokey" = a mask leaving the key out.
+	// op.Mask: "" = no update mask, "key" = a mask naming the key field and others, "nokey" = a mask leaving the key out,
+	// "empty" = a mask that is not nil and has no paths.
 	update func(op storeOp) error
 	// delAllow: Delete*(id, resource.WithAllowMissing(true)) (nil where the model's delete takes no options)
 	delAllow func(id string) error
@@ -58,6 +59,8 @@ func (r rpc) updateMask(op storeOp) *fieldmaskpb.FieldMask {
 		return &fieldmaskpb.FieldMask{Paths: append([]string{r.Key}, r.Upd...)}
 	case "nokey":
 		return &fieldmaskpb.FieldMask{Paths: append([]string{}, r.Upd...)}
+	case "empty":
+		return &fieldmaskpb.FieldMask{} // not nil, no paths
 	}
 	return nil
 }
@@ -70,6 +73,9 @@ func (r rpc) writeOpts(op storeOp) []resource.WriteOption {
 		opts = append(opts, resource.WithUpdatePaths(append([]string{r.Key}, r.Upd...)...))
 	case "nokey":
 		opts = append(opts, resource.WithUpdatePaths(r.Upd...))
+	case "empty":
+		// a mask that is not nil but names no path ("ensure it exists, change nothing"); drawn in both spellings
+		opts = append(opts, resource.WithUpdateMask(&fieldmaskpb.FieldMask{}))
 	}
 	if op.Upsert {
 		opts = append(opts, resource.WithCreateIfAbsent())
